@@ -143,9 +143,9 @@ func c02Run(c *Ctx) {
 		}
 		return true
 	}
-	maxElseIf, depth := 3, 2
+	maxElseIf, depth := 3, 3
 	if c.Thorough() {
-		maxElseIf, depth = 4, 3
+		maxElseIf, depth = 5, 4
 	}
 	// placements: all sequences of placements of length < depth (length 0 = top level)
 	var places [][]int
@@ -235,9 +235,9 @@ func init() {
 			"Non-trivial: the chosen branch is not the first one, no branch is chosen, or a failing condition follows the chosen branch (it must stay unevaluated)",
 		Bounds: func(tier string) map[string]any {
 			if tier == "thorough" {
-				return map[string]any{"max_elseif": 4, "nesting_depth": 3, "representative_rotations": 11}
+				return map[string]any{"max_elseif": 5, "nesting_depth": 4, "representative_rotations": 11}
 			}
-			return map[string]any{"max_elseif": 3, "nesting_depth": 2, "representative_rotations": 11}
+			return map[string]any{"max_elseif": 3, "nesting_depth": 3, "representative_rotations": 11}
 		},
 		Assume: []string{"branch bodies are unique marker texts; expressions inside conditions are covered by C01"},
 		Run:    c02Run,
